@@ -288,7 +288,7 @@ func checkSplits(c *core.Ctx, a *elAnch, f *fn, scope ast.Node) {
 func init() {
 	register(&core.Rule{ID: "C10.12", Prop: "C10", MinSites: 3,
 		Desc: "the unconditional release is the owner's: elastic.RingBuffer.Done (which pools the ring whatever it still holds) is called only from the teardown paths conn.release, conn.resetBuffer and elastic.Buffer.Release; the consuming operations use done(), which pools the ring only when it is empty",
-		Run: runC10_12})
+		Run:  runC10_12})
 }
 
 func runC10_12(c *core.Ctx) {
